@@ -65,6 +65,7 @@ typedef enum {
 
   opd_error = -1,
   n,
+  i,
   m,
   r,
   mr,
